@@ -166,9 +166,12 @@ def step (W : Nat) (sh : Sh) (t : Tid) (pc : Pc) (op : Op) : List (Sh × Pc) :=
       .pPushed id sh.items.isEmpty)]
   | .pPushed id we => [({ sh with items := linkItem sh.items id }, .pLinked id we)]
   | .pLinked _ we =>
-    if !we then [(sh, .idle)] else
-    if sh.items.isEmpty then [(sh, .idle)] else
     let enq := !d.E && d.O.isNone
+    -- a push that did not find the list empty may still issue an override wakeup: ENQUEUED without
+    -- DIRTY (found by replaying real traces through this model)
+    if !we then [(sh, .idle),
+      ({ sh with dq := { d with E := d.E || enq }, tokens := sh.tokens + (if enq then 1 else 0) }, .idle)] else
+    if sh.items.isEmpty then [(sh, .idle)] else
     [({ sh with dq := { d with E := d.E || enq, D := true }, tokens := sh.tokens + (if enq then 1 else 0) }, .idle)]
   | .sTryB id =>
     if d.idle then [({ sh with dq := d.lock W t }, .run id .fastB)]
